@@ -1,5 +1,7 @@
 import OpusProofs.DtxRun
 import OpusProofs.DtxRange
+import OpusProofs.DtxBudget
+import OpusProofs.DtxDecodeSkel
 /-
   C20 — DTX sends bounded runs of tiny packets when inactive and resumes at once.
 
@@ -245,11 +247,40 @@ theorem counters_in_range (c : Cfg) (ch : Nat) (ors : List CallOr) :
 example : (runFinal Ex.cfg (initSt 1) (List.replicate 30 Ex.silent)).nb = 1200 ∧
     (runFinal Ex.cfgLow (initSt 1) (List.replicate 30 Ex.faint)).silk.c0 = 30 := by decide +kernel
 
+/-- `Regular` — the premise "bitrate and buffer allow at least three bytes per frame" as the code has it
+    (src/opus_encoder.c:1249-1268) — in bitrate / buffer terms.  With `(max_data_bytes, bitrate) = budget c`
+    (the buffer clamped to 1276 and, for CBR, to the byte count of one packet at the bitrate) and
+    `frame_rate = Fs/frame_size`: the call reaches the frame loop iff `frame_size ≠ 0`, three bytes fit
+    and are paid for (`ThreeBytes`), and — packets longer than 20 ms only — at least 300 bytes/s and
+    2400 bit/s are available (`LongFrameFloor`). -/
+theorem regular_iff_budget (c : Cfg) :
+    Regular c ↔ frameSize c ≠ 0 ∧ (3 ≤ (budget c).1 ∧ 3 * frameRate c * 8 ≤ (budget c).2) ∧
+      (50 ≤ frameRate c ∨ (300 ≤ (budget c).1 * frameRate c ∧ 2400 ≤ (budget c).2)) :=
+  regular_iff c
+
+/-- For packets of at most 20 ms (`frame_rate ≥ 50`) the code's rule is exactly the property's wording:
+    three bytes fit the buffer and the bitrate pays for three bytes per packet. -/
+theorem regular_iff_three_bytes (c : Cfg) (h : 50 ≤ frameRate c) :
+    Regular c ↔ frameSize c ≠ 0 ∧ 3 ≤ (budget c).1 ∧ 3 * frameRate c * 8 ≤ (budget c).2 :=
+  regular_iff_short c h
+
+/- VBR 12 kb/s, 20 ms, full buffer: regular.  The gray zone of longer packets (known finding
+   C20-low-budget-long-frames): 60 ms, VBR 64 kb/s, 18-byte buffer — 18 bytes fit and 64 kb/s pay for far more
+   than three bytes per packet, yet the call returns the 2-byte low-budget packet, DTX off. -/
+example : Regular Ex.cfg ∧ budget Ex.cfgGray = (18, 64000) ∧ frameRate Ex.cfgGray = 16 ∧ ThreeBytes Ex.cfgGray ∧
+    ¬ Regular Ex.cfgGray ∧ (encodeCall Ex.cfgGray (initSt 1) Ex.speech).2.1 = Pkt.lowBudget 2 := by
+  refine ⟨⟨by decide, by decide⟩, by decide, by decide, ⟨by decide, by decide⟩, ?_, by decide⟩
+  intro h; exact absurd h.2 (by decide)
+
 /-- Clause "with DTX disabled no packet of two bytes or fewer is ever emitted as long as bitrate and
     buffer allow at least three bytes per frame" — the DTX, low-budget and budget-overrun return paths.
     With `use_dtx = 0`, a frame size accepted by the API and a budget outside the code's low-budget class
-    (`Regular c`: `max_data_bytes ≥ 3`, `bitrate ≥ 3·8·frame_rate`, and for packets longer than 20 ms
-    at least 300 bytes/s and 2400 bit/s, src/opus_encoder.c:1267), from any state and for all oracle
+    (`Regular c`, the code's own rule of src/opus_encoder.c:1267; in bitrate / buffer terms by
+    `regular_iff_budget`: `max_data_bytes ≥ 3`, `bitrate ≥ 3·8·frame_rate`, and for packets longer than
+    20 ms at least 300 bytes/s and 2400 bit/s; for packets of at most 20 ms this is exactly the property's
+    "three bytes per frame", `regular_iff_three_bytes`; for longer packets the code demands more and
+    emits 1–2-byte PLC packets in between — known finding C20-low-budget-long-frames, example after
+    `regular_iff_budget`), from any state and for all oracle
     values, UNDER THE INNER-ENCODER CONTRACT `NoBust` ("the SILK payload fits the frame budget": the
     branch `ec_tell(&enc) > (max_data_bytes-1)*8` of :2448-2457 is not taken in any coded frame),
     every call goes through the frame loop, none of its coded frames takes a DTX return and the packet is
@@ -266,5 +297,44 @@ example : Regular Ex.cfgOff ∧ pkts Ex.cfgOff (initSt 1) (List.replicate 40 Ex.
    DTX off or on, and it is never a DTX packet (the in-DTX query stays 0 during speech) -/
 example : pkts Ex.cfgOff (initSt 1) [Ex.speech, Ex.speechBust] = [Pkt.normal, Pkt.bust] ∧
     run Ex.cfg (initSt 1) [Ex.speech, Ex.speechBust] = [(Pkt.normal, false), (Pkt.bust, false)] := by decide
+
+/-! ## The decoder fed the DTX stream -/
+
+/-- Clause "a decoder fed the DTX stream (treating DTX packets as given or as losses) produces the
+    requested durations".  For the decoder skeleton of C01 (any oracle within its contracts, any decoder
+    state satisfying the decoder invariant, any decoder rate / channel count) and EVERY DTX packet shape
+    the encoder emits — `dtxBytes t n`: the TOC alone, code 1 for two coded frames, code 3 with the
+    frame count for 3…6 coded frames, any TOC `t` with clear code bits, at most 120 ms:
+    * as given: `opus_decode_native` returns exactly `n` times the TOC's frame duration (and reports it
+      as the last packet duration) whenever the caller's `frame_size` has room for it;
+    * as a loss (`data = NULL`): it returns exactly the requested `frame_size` (a positive multiple of
+      2.5 ms);
+    and the TOC that `gen_toc` writes for a coded frame of `u` 2.5-ms units tells every decoder rate
+    `Fs` a frame duration of `Fs·u/400` samples, so "`n` times the TOC's frame duration" is the duration
+    the encoder was asked to code. -/
+theorem dtx_stream_decodes (o : DecSkel.Oracle) (ho : DecSkel.OracleOk o) (r : DecSkel.Run) (hinv : DecSkel.DecInv r.st)
+    (hlog : r.log = []) (t n : Nat) (ht : t ∈ tocs) (hn : n ∈ [1, 2, 3, 4, 5, 6])
+    (hdur : n * Framing.samplesPerFrame t 48000 ≤ 5760) (pcm : DecSkel.Ptr) (frame_size : Int) (sc : Bool)
+    (hbuf : pcm.buf = .pcm) (hroom : 0 ≤ pcm.off ∧ pcm.off + frame_size * r.st.channels ≤ pcm.cap) :
+    ((n : Int) * (Framing.samplesPerFrame t r.st.Fs.toNat : Int) ≤ frame_size →
+      (DecSkel.decodeNative o (some (dtxBytes t n)) (dtxBytes t n).length pcm frame_size 0 false sc r).ret =
+          .ret ((n : Int) * (Framing.samplesPerFrame t r.st.Fs.toNat : Int)) ∧
+      (DecSkel.decodeNative o (some (dtxBytes t n)) (dtxBytes t n).length pcm frame_size 0 false sc r).run.st.last_packet_duration =
+          (n : Int) * (Framing.samplesPerFrame t r.st.Fs.toNat : Int)) ∧
+    (0 < frame_size → frame_size % (r.st.Fs / 400) = 0 →
+      (DecSkel.decodeNative o none 0 pcm frame_size 0 false sc r).ret = .ret frame_size) ∧
+    (∀ x ∈ encCombos, ∀ ch ∈ [(1 : Int), 2], EncDecide.genToc x.1 x.2.1 x.2.2 ch ∈ tocs ∧
+      ∀ fsd ∈ [8000, 12000, 16000, 24000, 48000],
+        Framing.samplesPerFrame (EncDecide.genToc x.1 x.2.1 x.2.2 ch) fsd * 400 = fsd * frameUnits x.2.1) :=
+  ⟨fun hfit => decode_dtx_given o ho r hinv hlog t n ht hn hdur pcm frame_size sc hbuf hroom hfit,
+   fun hpos hmul => (OpusProps.C01.decodeNative_plc_duration o ho r hinv hlog none (fun _ h => by cases h) 0 pcm frame_size 0
+      false sc hbuf hroom (Or.inl rfl) hpos hmul (Or.inl (Or.inl rfl))).1,
+   genToc_frame⟩
+
+/- the three shapes, with their lengths as `dtxPacketLen` has them; SILK-only WB 20 ms mono (TOC 0x48):
+   three coded frames decode to 60 ms = 2880 samples at 48 kHz -/
+example : dtxBytes 72 1 = [72] ∧ dtxBytes 72 2 = [73] ∧ dtxBytes 72 3 = [75, 3] ∧
+    (dtxBytes 72 3).length = dtxPacketLen 3 ∧ 72 ∈ tocs ∧ 3 * Framing.samplesPerFrame 72 48000 = 2880 ∧
+    EncDecide.genToc 1000 50 1103 1 = 72 := by decide
 
 end OpusProps.C20
